@@ -95,7 +95,7 @@ RScalars == { "r_double", "r_float", "r_int64", "r_uint64", "r_int32", "r_fixed6
 ReqSetTab == [ none    |-> {},
                scalars |-> RScalars,
                names   |-> {"name", "parent", "label_text", "r_string"},
-               mixed   |-> {"name", "flag", "r_int64", "r_bool", "r_bytes", "r_double"},
+               mixed   |-> {"name", "flag", "r_int64", "r_bool", "r_bytes", "r_double", "opt_n"},   \* opt_n: REQUIRED and proto3-optional
                mixed2  |-> {"parent", "class", "label_text", "r_sint32", "r_fixed64", "r_float", "r_uint32"} ]
 
 EnumNum  == [KIND_UNSPECIFIED |-> "0", BIG |-> "1", SMALL |-> "2"]
@@ -117,7 +117,7 @@ SetVals(l) == CASE Kind(l) = "segs"  -> {PV[i] : i \in PathValIds}
                 [] Kind(l) = "repi"  -> {<<"1", "2">>, <<"3">>}
                 [] Kind(l) = "reps"  -> {<<"x", "y">>}
                 [] Kind(l) = "opt"   -> {<<"0">>, <<"5">>}            \* explicit presence: a set 0 is not "unset"
-Default(l) == CASE Kind(l) \in {"int", "float"} -> "0"
+Default(l) == CASE Kind(l) \in {"int", "float", "opt"} -> "0"
                 [] Kind(l) = "bool" -> "false"
                 [] OTHER -> ""                                          \* segs, str, bytes
 
@@ -385,7 +385,9 @@ FromBody(l) == Norm(l, Dec(l, h.body[IF B.body = "*" THEN LeafTab[l].json ELSE L
 Inv_NoLoss ==
   Sent => \A l \in Leaves :
             /\ (req[l] # <<>> => Where(l) # {})
-            /\ (InQuery(l) => FromQuery(l) = Wire0(l, req[l]))
+            /\ (InQuery(l) => \/ FromQuery(l) = Wire0(l, req[l])
+                              \* a REQUIRED field with explicit presence that the caller left unset travels as its default value
+                              \/ l \in required /\ Kind(l) = "opt" /\ req[l] = <<>> /\ FromQuery(l) = <<Default(l)>>)
             /\ (InBody(l) => FromBody(l) = Wire0(l, req[l]))
 \* "... or duplication"
 Inv_NoDup == Sent => \A l \in Leaves : Cardinality(Where(l)) <= 1
